@@ -8,6 +8,7 @@ front of the body, loop annotations / proof blocks spliced at anchors, and the
 lexical rewrite rules R1.. applied.  Every rewrite application is recorded.
 """
 import hashlib
+import json
 import os
 import re
 
@@ -685,6 +686,12 @@ def splice(body, contract, applied):
             raise GenError('%s: unknown directive @%s' % (contract.origin, kind))
     for pos, _, text in sorted(ins, key=lambda t: (-t[0], -t[1])):
         body = body[:pos] + text + body[pos:]
+    # the number of loops the annotations were written for (contracts/loopcounts.json, stamped by `./vx stamp` on the
+    # unchanged tree): a different count means loops were added / removed / possibly re-ordered, so invariants may be
+    # attached to the wrong loop or a new loop has none - the function is degraded (its failures are undecided)
+    exp = LOOPCOUNTS.get(contract.key)
+    if exp is not None and exp != len(loops) and not STAMPING:
+        degraded.append('loop count changed: annotations were written for %d loop(s), the body now has %d' % (exp, len(loops)))
     if degraded:
         applied.append({'rule': 'DEGRADED', 'dropped_annotations': degraded})
     return body, len(loops)
@@ -1075,6 +1082,12 @@ def vacuous_head(head):
 # template expansion
 # --------------------------------------------------------------------------
 # contracts whose text needs the signature / interpreter shims: never pulled into other units by //@stubrest
+STAMPING = False
+try:
+    LOOPCOUNTS = json.load(open(os.path.join(VERIF, 'contracts', 'loopcounts.json')))
+except Exception:
+    LOOPCOUNTS = {}
+
 STUBREST_SKIP = {'Transaction::_verify', 'TxIn::get_finalised_script_impl'}
 STUBREST_SKIP_FILES = {'template.vc', 'interp_sig.vc', 'asm.vc', 'accessors.vc'}
 
